@@ -209,7 +209,7 @@ func diffState(st *optState) string {
 
 // ---- probes: one per operation class of MxjOptions!Relevant -----------------------------
 const probeDoc = `<Doc-A x-y="1" B="t" n="NaN"> <e-f> 7 </e-f><e-f>true</e-f><g/><h k="&amp;&lt;">x &lt; y</h><stream>s</stream><E-F>9</E-F></Doc-A>`
-const probeSeqDoc = `<p:A xmlns:p="u" z-z="1" p:W="2"><!--c--><?t i?><B-c> v </B-c><d>&lt;7</d><B-c>true</B-c><e>NaN</e><stream:stream x="1"><y/></stream:stream></p:A>`
+const probeSeqDoc = `<p:A xmlns:p="u" z-z="1 &amp; &lt;" p:W="2"><!--c--><?t i?><B-c> v </B-c><d>&lt;7</d><B-c>true</B-c><e>NaN</e><stream:stream x="1"><y/></stream:stream></p:A>`
 
 func digest(v interface{}, err error) string {
 	if err != nil {
@@ -513,7 +513,7 @@ type mxjLine struct {
 }
 
 const mxjProbeDoc = `<D-a x-Y="1" B=" &amp;">` + "\n" + `<e-f> 7 </e-f><e-f>&lt;v</e-f><g/><h k="q">true</h>` + "\n" + `</D-a>`
-const mxjProbeSeqDoc = `<p:A z-z="1"><!--c--><B-c> v </B-c><d>&lt;7</d></p:A>`
+const mxjProbeSeqDoc = `<p:A z-z="1&amp;"><!--c--><B-c> v </B-c><d>&lt;7</d></p:A>`
 
 func mxjProbeMap() mxj.Map {
 	return mxj.Map{"doc": map[string]interface{}{"-x": "1", "@y": "2", "#text": "t<", "_text": "u",
@@ -606,6 +606,13 @@ func mxjOp(st mxjStep) (name, got, want string) {
 			return name + " error class", cls(err) + " " + tagged.CanonGo(m), "err " + exp.Post.Norm()
 		}
 		return name, fmt.Sprintf("%d %v %s", n, err, tagged.CanonGo(m)), fmt.Sprintf("%d <nil> %s", exp.C, exp.Post.Norm())
+	case "newmap":
+		var tv tagged.TV
+		if err := json.Unmarshal(st.R, &tv); err != nil {
+			panic(err)
+		}
+		nm, err := mxjQueryMap().NewMap(st.Arg)
+		return fmt.Sprintf("NewMap(%q)", st.Arg), tagged.CanonGo(nm) + fmt.Sprint(err), tv.Norm() + "<nil>"
 	case "struct":
 		var exp []string
 		if err := json.Unmarshal(st.R, &exp); err != nil {
